@@ -2,6 +2,8 @@ import PPLV.Conv.ProofsSound3
 import PPLV.Conv.ProofsSat3
 import PPLV.Conv.ProofsSpan
 import PPLV.Conv.ProofsSimp9
+import PPLV.Conv.ProofsSort
+import PPLV.Conv.ProofsK1
 /-!
 # C01 stage 3 — the double-description engine inside the model
 
@@ -104,6 +106,16 @@ theorem conversion_step_sat (ncols : Nat) (srcK : LRow) (st : CState) (kept : Li
     ((conversionStep ncols srcK st).redundant = st.redundant ∧ RowsSatCorrect (kept ++ [srcK]) (conversionStep ncols srcK st).rows) ∨
     ((conversionStep ncols srcK st).redundant = st.redundant ++ [st.k] ∧ RowsSatCorrect kept (conversionStep ncols srcK st).rows) :=
   conversionStep_sat ncols srcK st kept hk hs hl hn hsat
+
+example :
+    let st : CState := { rows := [⟨⟨false, [1, 0]⟩, 0, [true]⟩, ⟨⟨false, [1, 2]⟩, 0, [true]⟩], nle := 0, k := 1, redundant := [] }
+    let kept : List LRow := [⟨false, [1, 0]⟩]
+    RowsSatCorrect kept st.rows ∧
+    (conversionStep 2 ⟨false, [1, -1]⟩ st).rows.map (·.sat) = [[true, true], [true]] := by
+  refine ⟨?_, by decide⟩
+  intro d hd j
+  simp only [List.mem_cons, List.not_mem_nil, or_false] at hd
+  rcases hd with h | h <;> subst h <;> rcases j with _ | j <;> simp [bit, scalarProduct]
 
 /-- **`conversion_preserves_span_ray`** — the half of completeness that needs no adjacency argument,
 for one iteration in the case where every line saturates `source[k]` (`rayCase`, :635-968; `st` holds the
@@ -432,6 +444,24 @@ theorem minimize_dest_sound (conToGen nnc : Bool) (ncols : Nat) (source : List L
   · exact h
   · exact h
 
+example : Sound [⟨false, [1, 0]⟩, ⟨false, [3, -1]⟩] (minimize true false 2 [⟨false, [1, 0]⟩, ⟨false, [3, -1]⟩] []).dest := by
+  unfold Sound; decide
+
+/-- the same with the head of `minimize` (`if (!source.is_sorted()) source.sort_rows();`): `sort_rows()`
+neither invents nor loses a row (`mem_sortRows`), so the generators satisfy the caller's system. -/
+theorem minimizeUnsorted_dest_sound (conToGen nnc sorted : Bool) (ncols : Nat) (source : List LRow) (sat0 : List BRow) :
+    Sound source (minimizeUnsorted conToGen nnc sorted ncols source sat0).dest := by
+  unfold minimizeUnsorted
+  by_cases h : sorted = true
+  · simp only [h, if_true]; exact minimize_dest_sound conToGen nnc ncols source sat0
+  · simp only [h, Bool.false_eq_true, if_false]
+    intro d hd s hs
+    exact minimize_dest_sound conToGen nnc ncols _ sat0 d hd s ((mem_sortRows _ _ _ _).mpr hs)
+
+example :
+    sortRows false false [⟨false, [3, -1]⟩, ⟨false, [1, 0]⟩, ⟨true, [0, 1]⟩, ⟨false, [1, 0]⟩]
+      = [⟨true, [0, 1]⟩, ⟨false, [3, -1]⟩, ⟨false, [1, 0]⟩] := by decide
+
 /-- `add_and_minimize`: if the pair handed in is sound for the non-pending rows (`source[0, start)`) and
 its lines come first, every row of the `dest` returned satisfies every row of `source`, pending rows
 included. -/
@@ -447,6 +477,13 @@ theorem addAndMinimize_dest_sound (conToGen nnc : Bool) (ncols : Nat) (source : 
   split
   · exact h
   · exact h
+
+example :
+    let source : List LRow := [⟨false, [1, 0]⟩, ⟨false, [3, -1]⟩, ⟨false, [-1, 1]⟩]
+    let dest : List LRow := [⟨false, [0, -1]⟩, ⟨false, [1, 3]⟩]
+    Sound (source.take 2) dest ∧ LinesFirst dest (dest.filter (·.le)).length ∧
+    (addAndMinimize true false 2 source 2 dest [[true, false], [false, true]]).dest = [⟨false, [1, 3]⟩, ⟨false, [1, 1]⟩] := by
+  refine ⟨by unfold Sound; decide, by unfold LinesFirst; decide, by decide⟩
 
 /-- `minimize(true, cs, gs, sat)` on a C system: when it does not report "empty" it has produced a
 generator with a positive divisor that satisfies every constraint — the constraint system is feasible. -/
@@ -473,5 +510,25 @@ example :
     (minimize true false 2 [⟨false, [1, 0]⟩, ⟨false, [3, -1]⟩] []).empty = false ∧
     (minimize true false 2 [⟨false, [1, 0]⟩, ⟨false, [3, -1]⟩] []).dest = [⟨false, [0, -1]⟩, ⟨false, [1, 3]⟩] := by
   decide
+
+/-- **tie to the K1 kernel** — `sysCons source` is the K1 reading (`PPLV.Lin.Con`, necessarily closed) of
+the constraint rows.  When the model of `minimize(true, cs, gs, sat)` does not report "empty", the K1
+decider `feasible` (proved sound and complete, `feasible_iff`) agrees: the set `sem (sysCons source)` has a
+point — the generator with a positive divisor the engine produced.  (The converse, "empty" reports are
+right, needs completeness: certified per run by `checkDD`.) -/
+theorem minimize_nonempty_feasible (ncols n : Nat) (source : List LRow) (sat0 : List BRow)
+    (hwf : PPLV.Lin.WF n (sysCons source))
+    (h : (minimize true false ncols source sat0).empty = false) :
+    PPLV.Lin.feasible n (sysCons source) = true := by
+  obtain ⟨d, _, hpos, hs⟩ := minimize_nonempty_sound ncols source sat0 h
+  exact (PPLV.Lin.feasible_iff n (sysCons source) hwf).mpr ⟨_, sound_point_sat source d hpos hs⟩
+
+example :
+    PPLV.Lin.WF 1 (sysCons [⟨false, [1, 0]⟩, ⟨false, [3, -1]⟩]) ∧
+    (minimize true false 2 [⟨false, [1, 0]⟩, ⟨false, [3, -1]⟩] []).empty = false := by
+  refine ⟨?_, by decide⟩
+  intro c hc
+  simp [sysCons, rowCons, PPLV.Lin.geRow] at hc
+  rcases hc with rfl | rfl <;> simp
 
 end C01
